@@ -80,3 +80,39 @@ def kdf_parameters(chk: Check, repo: Repo, entries: list[str]) -> None:
         got["encoding"] = enc
         exp = {k: want[k] for k in ("hash", "length", "iterations", "salt", "encoding")}
         chk.ob("key-derivation-parameters-agree-with-the-specification", f.site(), got == exp, f"{name}: {got}; required {exp}", key=f"kdf|{name}")
+
+
+def refusal_during_connect_is_heard(chk: Check, repo: Repo) -> None:
+    """A device may answer the connect telegram (refuse with T_Disconnect) while the sender still awaits the local
+    confirmation of that telegram.  To hear it the connection has to be in Management's table before the connect is
+    awaited (else the answer is an unhandled telegram), and the connected flag has to be set before the send (else
+    connect() overwrites the refusal afterwards).  A connection that fails to open is taken out of the table again."""
+    from ..cfg import CFG
+    from ..astx import calls
+    mc = repo.func("xknx.management.management", "Management.connect")
+    chk.unit(mc)
+    cfg = CFG(mc.node)
+    awaits = [n for n in cfg.nodes if n.kind == "stmt" and n.ast is not None and any(isinstance(x, ast.Await) and isinstance(x.value, ast.Call) and isinstance(x.value.func, ast.Attribute) and x.value.func.attr == "connect" for x in ast.walk(n.ast))]
+    stores = [n for n in cfg.nodes if n.kind == "stmt" and isinstance(n.ast, ast.Assign) and any(isinstance(t, ast.Subscript) and ast.unparse(t.value) == "self._connections" for t in n.ast.targets)]
+    removes = [n.id for n in cfg.nodes if n.kind == "stmt" and n.ast is not None and ((isinstance(n.ast, ast.Delete) and any(isinstance(t, ast.Subscript) and ast.unparse(t.value) == "self._connections" for t in n.ast.targets)) or any(call_name(c) in ("self._connections.pop",) for c in calls(n.ast)))]
+    ok = len(awaits) == 1 and len(stores) == 1 and cfg.dominates(stores[0].id, awaits[0].id)
+    chk.ob("connection-is-registered-before-it-connects", mc.site(), ok, "Management.connect stores the connection in its table " + ("before" if ok else "only after") + " awaiting P2PConnection.connect() - telegrams of the device arriving during that await " + ("reach it" if ok else "are unhandled"), key="mgmt-connect|registered-first")
+    if ok:
+        # every exceptional way out of the await passes a removal
+        exc_succ = [t for t, lab in awaits[0].succ if lab == "exc"]
+        leak = cfg.reachable(exc_succ, avoid=set(removes)) & {cfg.raise_exit, cfg.exit} if exc_succ else set()
+        chk.ob("connection-is-registered-before-it-connects", mc.site(), bool(exc_succ) and not leak, "a connection that fails to open (any exception, including cancellation) is removed from the table again", key="mgmt-connect|removed-on-failure")
+    pc = repo.func("xknx.management.management", "P2PConnection.connect")
+    chk.unit(pc)
+    cfg2 = CFG(pc.node)
+    sends = [n for n in cfg2.nodes if n.kind == "stmt" and n.ast is not None and any(isinstance(x, ast.Await) and isinstance(x.value, ast.Call) and call_name(x.value).endswith("send_telegram") for x in ast.walk(n.ast))]
+    sets = [n for n in cfg2.nodes if n.kind == "stmt" and isinstance(n.ast, ast.Assign) and any(ast.unparse(t) == "self._connected" for t in n.ast.targets) and isinstance(n.ast.value, ast.Constant) and n.ast.value.value is True]
+    after = [n for n in sets if sends and not cfg2.dominates(n.id, sends[0].id)]
+    ok2 = len(sends) == 1 and bool(sets) and not after
+    chk.ob("connected-flag-is-set-before-the-connect-telegram", pc.site(), ok2, "P2PConnection.connect sets _connected = True " + ("before awaiting the send: a T_Disconnect processed meanwhile resets it for good" if ok2 else "after the awaited send: it overwrites a refusal (T_Disconnect) processed during the await"), key="p2p-connect|flag-first")
+    if ok2:
+        resets = [n.id for n in cfg2.nodes if n.kind == "stmt" and isinstance(n.ast, ast.Assign) and any(ast.unparse(t) == "self._connected" for t in n.ast.targets) and isinstance(n.ast.value, ast.Constant) and n.ast.value.value is False]
+        exc_succ = [t for t, lab in sends[0].succ if lab == "exc"]
+        handlers = [t for t in exc_succ if cfg2.nodes[t].kind == "handler"]
+        bad = [h for h in handlers if not cfg2.all_paths_hit(h, resets, ends=[cfg2.raise_exit, cfg2.exit])]
+        chk.ob("connected-flag-is-set-before-the-connect-telegram", pc.site(), bool(handlers) and not bad, "a failed send resets the flag in every handler", key="p2p-connect|reset-on-failure")
